@@ -106,15 +106,20 @@ Completion(t, r, c) ==
                     ab \in {x \in (1..p) \X (1..p) : x[1] < x[2]}}
     IN refl \cup two
 
-RECURSIVE AddAll(_, _)
-AddAll(s, S) ==
-    IF S = {} THEN s
-    ELSE LET x == CHOOSE y \in S : TRUE
-             o == CHOOSE o \in DoAdd(s, [std |-> x, form |-> "m", ar |-> 0, ac |-> 0]) : o.ok
-         IN AddAll(TLCEval(o.st), S \ {x})
-
-RECURSIVE Repeat(_, _, _)
-Repeat(s, C, k) == IF k = 0 THEN s ELSE Repeat(TLCEval(AddAll(s, C)), C, k - 1)
+(* equations the completion contributes per system; computed once per      *)
+(* (type, rows, columns) -- counts are additive (CountsAgree)              *)
+CompCount ==
+    [x \in {y \in Types \X (1..MaxDim) \X (1..MaxDim) : DimsOK(y[1], y[2], y[3])} |->
+        LET ss == SysSeq(x[1], x[3])
+            C  == Completion(x[1], x[2], x[3])
+        IN [k \in 1..Len(ss) |->
+              LET cnt(s) == IF Verdict(x[1], x[2], x[3], s) = "ok"
+                            THEN EqCount(x[1], x[2], x[3], s, ss[k]) ELSE 0
+                  RECURSIVE Sum(_)
+                  Sum(S) == IF S = {} THEN 0
+                            ELSE LET s == CHOOSE s \in S : TRUE
+                                 IN cnt(s) + Sum(S \ {s})
+              IN Sum(C)]]
 
 (* three distinct reflects per port are needed (the completion holds two   *)
 (* and is taken twice: each copy stands for other reflection values); the  *)
@@ -122,6 +127,9 @@ Repeat(s, C, k) == IF k = 0 THEN s ELSE Repeat(TLCEval(AddAll(s, C)), C, k - 1)
 LaterSuccess ==
     (st.alive /\ last.op.kind = "Solve" /\ ~last.ok /\ last.err = "EDOM"
        /\ UnderCountedSt(st)) =>
-       ~UnderCountedSt(Repeat(st, Completion(st.t, st.r, st.c),
-                              IF Is16(st.t) THEN 8 ELSE 2))
+       LET ss == SysSeq(st.t, st.c)
+           K  == IF Is16(st.t) THEN 8 ELSE 2
+       IN \A k \in 1..Len(ss) :
+             st.neq[k] + K * CompCount[<<st.t, st.r, st.c>>][k]
+                >= UnknownCount(st.t, st.r, st.c, ss[k])
 =============================================================================
